@@ -29,7 +29,7 @@ claim("C19", "other",
       "Bounded-free solver check: every literal of get_tableau is re-read from the current source and evaluated exactly; all Butcher order "
       "conditions up to the advertised order of each row (17 per 5th-order row), row sums and strict triangularity are z3 Real queries; the real "
       "runge_kutta_ti_coefficient is executed symbolically on an arbitrary tableau (1-6 stages) and proved equal to b A^(k-1) 1; float arrays and "
-      "Taylor coefficients are tied to the rationals within 1 ulp.",
+      "Taylor coefficients (orders up to 40, thorough 170) are tied to the rationals within 1 ulp (tableaux) / 4 ulp (1/k!, the package divides by a gamma-function factorial).",
       "Trusts z3, Python's ast/fractions and NumPy object loops. Rounding inside the integrators is out of scope.",
       "AST->exact rationals->z3 (QF_LRA/NRA) + symbolic execution of the real coefficient routine",
       "DESIGN.md section 1, C19")
@@ -74,8 +74,11 @@ claim("C18", "other",
 claim("C05", "other",
       "Real compress() under each truncation criterion on canonical 2-3 site chains (symbolic tensors, LAPACK by contract, both directions) with a call-through spy "
       "on the decomposition: bond limit of the right bond index, 1 <= m <= len(sigma), exact threshold set, the updated pair equals the m leading (u,sigma,v) triples, and for one "
-      "bond of a canonical state squared distance = discarded weight, norm non-increasing; CompressConfig.compute_m_trunc on symbolic sorted singular values.",
-      "LAPACK by contract; the multi-bond error bound is the textbook consequence of the one-bond identity and is not re-derived; trees are under C11.",
+      "bond of a canonical state squared distance = discarded weight, norm non-increasing; CompressConfig.compute_m_trunc on symbolic sorted singular values. Trees: the real "
+      "TTNS.compress() after canonicalise() on 2-3 (4) node trees with pairwise different per-node limits (all criteria on two-node trees): limit of the own node, kept count, "
+      "threshold set, ret_s, labels, one-bond distance identity.",
+      "LAPACK by contract; the multi-bond error bound is the textbook consequence of the one-bond identity and is not re-derived; on trees with more than one bond only limits, "
+      "counts and labels are obligations (symbolic thresholds on two chained decompositions do not finish).",
       "symbolic execution with LAPACK contract stubs + polynomial reduction modulo orthonormality hypotheses + z3",
       "DESIGN.md section 1, C05")
 
@@ -152,7 +155,8 @@ claim("C08", "other",
       "get_ham_direct, get_ham_iterative (diagonal + hop_expr application), the (H-omega)^2 two-layer form, StackedMpo summation, restricted to the quantum-number mask, one- and "
       "two-site, every centre, both directions; incremental environment update = freshly built environment; and the REAL drivers optimize_mps (symbolic omega, 1-/2-site) and "
       "optimize_ttns (labelled trees) for one sweep with the eigensolver replaced by an arbitrary-output contract stub: at every local step the matrix/operator handed to the "
-      "eigensolver = projection of H resp. (H-omega)^2 onto the masked coefficients of the current state; every site/bond visited as advertised; labels kept.",
+      "eigensolver = projection of H resp. (H-omega)^2 onto the masked coefficients of the current state; every site/bond visited as advertised; labels kept. Operators "
+      "with number-conserving (diagonal) blocks and with hopping blocks (local operators not symmetric in their physical indices).",
       "NOT covered: variational upper bound as an executed statement, agreement with exact diagonalisation, Davidson/ARPACK/primme behaviour, sweep convergence (float "
       "eigen-iterations). Normalisation/sector of results follow from C04/C06 lemmas.",
       "symbolic execution of the effective-Hamiltonian builders; bilinear polynomial identities decided by normal form + z3",
@@ -164,8 +168,10 @@ claim("C09", "other",
       "time-dependent H); for the adaptive embedded pairs the accept/reject bookkeeping (rejected trial leaves state and time untouched, accepted trial advances both, "
       "sub-steps add up) with an arbitrary solver-chosen error estimate, up to two trials. Projector splitting: the REAL chain sweeps _evolve_tdvp_ps/_ps2 (real and imaginary "
       "time) with expm_krylov replaced by a contract stub: effective operator at every local step = projection of H on the current state, local steps -+ i dt/2 summing to -i dt per "
-      "site and +i dt per bond, identity propagator => state unchanged, input untouched, labels valid.",
-      "NOT covered: TDVP accuracy/conservation laws as executed statements, tdvp_mu_vmf/cmf, solver independence, quality of the step-size heuristics (float Krylov/ODE iterations). "
+      "site and +i dt per bond, identity propagator => state unchanged, input untouched, labels valid. Adaptive Taylor driver: every trial (<= 3 per call, arbitrary error "
+      "estimates) = polynomial of its own step on the level's start state. tdvp_vmf: the right-hand side handed to the ODE solver = (1/i) S_L^-1 (1-P_i) F_i S_R^-1 per site "
+      "(eigh by contract, dense-block references, 2 sites bond 2; thorough 3 sites / complex), violations reported through float-build twins.",
+      "NOT covered: TDVP accuracy/conservation laws as executed statements, tdvp_mu_vmf/cmf, the ODE integration of VMF itself, solver independence, quality of the step-size heuristics (float Krylov/ODE iterations). "
       "Order of accuracy rests on C19.",
       "symbolic execution of the real evolve drivers with identity-compression / Krylov contract stubs; polynomial identities via normal form + z3",
       "DESIGN.md section 1, C09")
